@@ -38,7 +38,8 @@ func (f faultSpec) String() string {
 // Fault kinds. Packet kinds are addressed by packet index of the attempt.
 var packetKinds = []string{"fin", "rst", "short0", "zerolen", "cut", "badseq", "err", "eof", "cancel-master",
 	"inject-rowsquery", "inject-intvar", "inject-rand", "inject-invalid",
-	"inject-baddecode-before", "inject-baddecode-after", "inject-baddecode-write", "inject-baddecode-delete"}
+	"inject-baddecode-before", "inject-baddecode-after", "inject-baddecode-write", "inject-baddecode-delete",
+	"inject-hdronly-tablemap", "inject-hdronly-rows", "inject-hdronly-query", "inject-hdronly-fde", "inject-hdronly-rotate", "inject-hdronly-nocrc-rotate"}
 var txKinds = []string{"cancel-handler", "handler-err", "handler-err-cancel"}
 var mapperKinds = []string{"mapper-err", "mapper-count", "mapper-err-cancel", "mapper-count-cancel"}
 
@@ -79,6 +80,8 @@ func causeClass(k string) string {
 		return "unsupported-event"
 	case "inject-baddecode-before", "inject-baddecode-after", "inject-baddecode-write", "inject-baddecode-delete":
 		return "undecodable-event"
+	case "inject-hdronly-tablemap", "inject-hdronly-rows", "inject-hdronly-query", "inject-hdronly-fde", "inject-hdronly-rotate", "inject-hdronly-nocrc-rotate":
+		return "undecodable-event"
 	case "handler-err", "handler-err-cancel":
 		return "handler"
 	case "mapper-err", "mapper-count", "mapper-err-cancel", "mapper-count-cancel":
@@ -104,6 +107,14 @@ func injected(kind string, l *hist.Layout, pk sim.PlanPkt, r *core.Rng) []byte {
 		return cfg.EventNext(1, ev.IntVar, 0, ev.IntVarBody(2, 99), hostileNext)
 	case "inject-rand":
 		return cfg.EventNext(1, ev.Rand, 0, ev.RandBody(1, 2), hostileNext)
+	case "inject-hdronly-tablemap", "inject-hdronly-rows", "inject-hdronly-query", "inject-hdronly-fde", "inject-hdronly-rotate":
+		// a full header whose length field is right, and no body at all: it
+		// passes the validity test and cannot be decoded
+		typ := map[string]byte{"tablemap": ev.TableMap, "rows": cfg.RowsType(ev.RowsKind(r.Intn(3))), "query": ev.Query, "fde": ev.FormatDescription, "rotate": ev.Rotate}[kind[len("inject-hdronly-"):]]
+		return cfg.EventNext(1, typ, 0, nil, hostileNext)
+	case "inject-hdronly-nocrc-rotate":
+		// the same without the four checksum bytes the file's setting announces
+		return ev.Raw(1, ev.Rotate, cfg.ServerID, 0, nil, hostileNext, false)
 	case "inject-invalid":
 		b := cfg.EventNext(1, ev.XID, 0, ev.XIDBody(7), hostileNext)
 		// length field says one byte more than there is: the gate must reject it
